@@ -81,6 +81,28 @@ func (nilCall) Common() *ssa.CallCommon { return &ssa.CallCommon{} }
 
 func init() {
 	register(&Property{
+		ID: "C38",
+		Explanation: "Decides the shape that keeps a cache in any state from changing what restic reads: (atomic-save) Cache.save publishes a cache file only by renaming a completely copied and closed temporary created in the same directory, removes the temporary on errors and hands the final name to nothing else that could create it; (backend-first) cacheBackend.Save/Remove touch the cache only behind the success edge of the wrapped backend's operation and report success only after it, and a failed download into the cache removes the partial entry; (forget-and-retry) LoadRaw, LoadBlob, listPack and checkPack each drop the cached copy (cache.Forget, or no cache configured) between a failed/mismatching attempt and the single retry; (nil-only-after-hash, C02) every load path returns success only after the hash comparison, so a stale or corrupted cache file is either detected and replaced or reported; (cache-locks) cacheBackend.inProgress is only touched under inProgressMutex. Not decided: concurrent clearing of the cache directory by another process at arbitrary points (file-system races).",
+		Assumptions: append([]string{"os.Rename within one directory is atomic"}, commonAssumptions...),
+		Technique:   "static analysis: CFG edge cuts for save/retry ordering + lockset + nil-flow of load results (go/ssa)",
+		Run: func(c *eng.Ctx) {
+			ruleAtomicSave(c, cacheSaveSpec)
+			ruleBackendFirst(c)
+			ruleForgetAndRetry(c)
+			ruleNilOnlyAfterHash(c)
+			ruleGuardedFields(c, cacheInProgressGuard)
+		},
+		Controls: []Control{
+			{Name: "cache-before-backend", File: "internal/backend/cache/backend.go",
+				Old: "	// first, save in the backend\n	err = b.Backend.Save(ctx, h, rd)\n	if err != nil {\n		return err\n	}\n\n	// next, save in the cache\n	err = rd.Rewind()\n	if err != nil {\n		return err\n	}\n\n	err = b.Cache.save(h, rd)\n	if err != nil {\n		debug.Log(\"unable to save %v to cache: %v\", h, err)\n		return err\n	}\n\n	return nil",
+				New: "	err = b.Cache.save(h, rd)\n	if err != nil {\n		debug.Log(\"unable to save %v to cache: %v\", h, err)\n		return err\n	}\n	err = rd.Rewind()\n	if err != nil {\n		return err\n	}\n	return b.Backend.Save(ctx, h, rd)", Rule: "backend-first"},
+			{Name: "retry-without-forget", File: "internal/repository/raw.go",
+				Old: "		if r.cache != nil {\n			// Cleanup cache to make sure it's not the cached copy that is broken.\n			// Ignore error as there's not much we can do in that case.\n			_ = r.cache.Forget(h)\n		}\n", New: "", Rule: "forget-and-retry"},
+			{Name: "cache-writes-final-name-directly", File: "internal/backend/cache/file.go",
+				Old: "	f, err := os.CreateTemp(dir, \"tmp-\")", New: "	f, err := os.Create(finalname)", Rule: "atomic-save"},
+		},
+	})
+	register(&Property{
 		ID: "C36",
 		Explanation: "Decides, for every execution and crash point of (*local.Local).Save: (atomic-save) the final name is the destination of exactly one os.Rename whose source is the Name() of the temporary created by tempFile in filepath.Dir(finalname); the rename is reachable only through the success edges of io.Copy (into that temporary) and f.Close, the bytes-written == rd.Length() edge, after f.Sync() was called, and — from Sync — only on its success edge or an edge classifying the error as 'sync not supported'; after the rename success is reported only after fsyncDir succeeded (same tolerance); apart from Rename the final name is handed only to Dir/Base/debug.Log/setFileReadonly, so no other call can create it; error paths remove the temporary; (temp-not-listed) the temporary name is Base(finalname) plus a constant with a non-hex character, Repository.List passes a name to its callback only on the success edge of ParseID, and the tempFile hook is never reassigned. Not decided: atomicity and durability semantics of rename/fsync on the underlying file system.",
 		Assumptions: append([]string{"os.Rename within one directory is atomic; fsync makes file content durable"}, commonAssumptions...),
